@@ -45,6 +45,8 @@ type Cell struct {
 	Mask     bool
 	Mapper   bool // an ErrorMapper overriding NotFound -> 410 and Internal -> 502
 	Indirect bool // external issuance-chain storage mode
+	Verbose  bool // the process runs with klog -v=3 (debug logging on)
+	Bulky    bool // the stored entries are ~30 KiB each, so a reply of a few entries exceeds any ordinary buffer
 }
 
 var endpoints = []string{"add-chain", "add-pre-chain", "get-sth", "get-sth-consistency", "get-proof-by-hash", "get-entries", "get-entry-and-proof"}
@@ -65,7 +67,7 @@ var replyFaults = map[string][]string{
 	"add-pre-chain":       {"queued-absent", "leaf-absent", "leafvalue-garbage", "leafvalue-trailing", "leafvalue-empty"},
 	"get-sth":             append(append([]string{}, rootGarbles...), "roothash-0", "roothash-31", "roothash-33"),
 	"get-sth-consistency": append(append([]string{}, rootGarbles...), "proof-absent", "proof-hash-0", "proof-hash-31", "proof-hash-33"),
-	"get-proof-by-hash":   append(append([]string{}, rootGarbles...), "proof-list-empty", "proof-hash-0", "proof-hash-31", "proof-hash-33"),
+	"get-proof-by-hash":   append(append([]string{}, rootGarbles...), "proof-list-empty", "proof-hash-0", "proof-hash-31", "proof-hash-33", "proof-hash-31-then-good-proof", "proof-hash-0-then-good-proof"),
 	"get-entries":         append(append([]string{}, rootGarbles...), "surplus-leaves", "index-off", "out-of-order", "inner-swap", "inner-duplicate", "inner-foreign"),
 	"get-entry-and-proof": append(append([]string{}, rootGarbles...), "leaf-absent", "leafvalue-empty", "proof-absent", "proof-empty"),
 }
@@ -92,8 +94,16 @@ func matrix() []Cell {
 			for _, mask := range []bool{false, true} {
 				for _, mapper := range []bool{false, true} {
 					out = append(out, Cell{Endpoint: ep, Fault: f, Mask: mask, Mapper: mapper})
-					if ep == "get-entries" || ep == "get-entry-and-proof" || ep == "add-chain" || ep == "add-pre-chain" {
+					entryEP := ep == "get-entries" || ep == "get-entry-and-proof"
+					if entryEP || ep == "add-chain" || ep == "add-pre-chain" {
 						out = append(out, Cell{Endpoint: ep, Fault: f, Mask: mask, Mapper: mapper, Indirect: true})
+					}
+					if !mapper {
+						// debug logging is a process-wide configuration: every fault again with it switched on
+						out = append(out, Cell{Endpoint: ep, Fault: f, Mask: mask, Verbose: true})
+					}
+					if entryEP && !mapper {
+						out = append(out, Cell{Endpoint: ep, Fault: f, Mask: mask, Bulky: true}, Cell{Endpoint: ep, Fault: f, Mask: mask, Bulky: true, Indirect: true})
 					}
 				}
 			}
@@ -110,24 +120,31 @@ type fixture struct {
 }
 
 var (
-	fixOnce sync.Once
-	fix     fixture
+	fixOnce [2]sync.Once
+	fixes   [2]fixture
 )
 
-func getFixture() *fixture {
-	fixOnce.Do(func() {
+func getFixture() *fixture { return getFixtureB(false) }
+
+// getFixtureB returns the six stored entries: ordinary ones, or (bulky) ones of about 30 KiB each.
+func getFixtureB(bulky bool) *fixture {
+	k, bulk := 0, 0
+	if bulky {
+		k, bulk = 1, 30000
+	}
+	fixOnce[k].Do(func() {
 		for i := 0; i < 6; i++ {
-			b := world.Build(world.ChainSpec{ID: uint32(7000 + i), Root: i % 4, Inters: []string{"p256"}[:i%2], LeafKind: "p256", Precert: i%3 == 1, PreIssuer: i == 4, IncludeRoot: true})
+			b := world.Build(world.ChainSpec{ID: uint32(7000 + 100*k + i), Root: i % 4, Inters: []string{"p256"}[:i%2], LeafKind: "p256", Precert: i%3 == 1, PreIssuer: i == 4, IncludeRoot: true, Bulk: bulk})
 			lv, err := rfc6962.EncodeLeaf(rfc6962.Leaf{Timestamp: uint64(1000 + i), Entry: b.Entry()})
 			if err != nil {
 				panic(err)
 			}
-			fix.leaves = append(fix.leaves, [2][]byte{lv, b.ExtraData()})
+			fixes[k].leaves = append(fixes[k].leaves, [2][]byte{lv, b.ExtraData()})
 			h := mtree.LeafHash(lv)
-			fix.hashes = append(fix.hashes, h[:])
+			fixes[k].hashes = append(fixes[k].hashes, h[:])
 		}
 	})
-	return &fix
+	return &fixes[k]
 }
 
 const fixSize = 6
@@ -153,8 +170,10 @@ type rig struct {
 
 const rpcDeadline = 7 * time.Second
 
-func newRig(t *testing.T, mask, mapper, indirect bool) *rig {
-	f := getFixture()
+func newRig(t *testing.T, mask, mapper, indirect bool) *rig { return newRigB(t, mask, mapper, indirect, false) }
+
+func newRigB(t *testing.T, mask, mapper, indirect, bulky bool) *rig {
+	f := getFixtureB(bulky)
 	r := &rig{be: reflog.New(6962, 1), clock: ctfex.NewClock(time.Date(2024, 3, 1, 12, 0, 0, 500, time.UTC))}
 	for _, l := range f.leaves {
 		r.be.AppendRaw(l[0], l[1])
@@ -200,7 +219,11 @@ var freshID uint32 = 900000
 
 // validRequest builds a request with valid parameters for the endpoint; variant perturbs them within validity.
 func validRequest(ep string, variant int, beyond bool) request {
-	f := getFixture()
+	return validRequestB(ep, variant, beyond, false)
+}
+
+func validRequestB(ep string, variant int, beyond, bulky bool) request {
+	f := getFixtureB(bulky)
 	switch ep {
 	case "add-chain", "add-pre-chain":
 		freshID++
@@ -321,6 +344,11 @@ func mutateReply(how string, rsp proto.Message) proto.Message {
 			garbleRoot(&r.SignedLogRoot, how)
 		case how == "proof-list-empty":
 			r.Proof = nil
+		case strings.HasSuffix(how, "-then-good-proof"):
+			// the first proof (the one that is served) is malformed, a well-formed one follows
+			bad := proto.Clone(r.Proof[0]).(*trillian.Proof)
+			bad.Hashes = append(bad.Hashes, badHash(strings.TrimSuffix(how, "-then-good-proof")))
+			r.Proof = append([]*trillian.Proof{bad}, r.Proof...)
 		default:
 			r.Proof[0].Hashes = append(r.Proof[0].Hashes, badHash(how))
 		}
@@ -560,9 +588,17 @@ func trunc(b []byte) string {
 
 func checkCell(t *testing.T, c Cell) (v harness.Verdict) {
 	v.NonTrivial = true
-	r := newRig(t, c.Mask, c.Mapper, c.Indirect)
+	if c.Verbose {
+		harness.SetKlogVerbosity(3)
+		defer harness.SetKlogVerbosity(0)
+		v.Class("debug-logging-on")
+	}
+	if c.Bulky {
+		v.Class("bulky-entries")
+	}
+	r := newRigB(t, c.Mask, c.Mapper, c.Indirect, c.Bulky)
 	r.arm(c.Endpoint, c.Fault, 0)
-	q := validRequest(c.Endpoint, 3, c.Fault.Kind == "beyond-tree")
+	q := validRequestB(c.Endpoint, 3, c.Fault.Kind == "beyond-tree", c.Bulky)
 	o := r.do(q)
 	v.Class("ep:"+c.Endpoint, "fault:"+c.Fault.Kind)
 	judgeFault(&v, r, c.Endpoint, c.Fault, c.Mask, c.Mapper, o, "matrix")
@@ -575,5 +611,5 @@ func checkCell(t *testing.T, c Cell) (v harness.Verdict) {
 // Matrix is the exhaustive endpoint x RPC x fault x configuration matrix.
 var Matrix = harness.DefineEnum(harness.Opts{
 	Name: "matrix",
-	Rule: "exhaustive: 7 backend-calling endpoints x {gRPC codes 1..16 as status errors, plain error, raw context.DeadlineExceeded / Canceled, every malformed-reply class applicable to the endpoint's RPC, request beyond the current tree} x MaskInternalErrors on/off x ErrorMapper absent/overriding x (for entry-serving and submission endpoints) direct/external chain storage; every cell is distinct and non-trivial",
+	Rule: "exhaustive: 7 backend-calling endpoints x {gRPC codes 1..16 as status errors, plain error, raw context.DeadlineExceeded / Canceled, every malformed-reply class applicable to the endpoint's RPC, request beyond the current tree} x MaskInternalErrors on/off x ErrorMapper absent/overriding x (for entry-serving and submission endpoints) direct/external chain storage, plus every cell again with klog -v=3 and the entry-serving cells again over ~30 KiB entries (replies far larger than any write buffer); every cell is distinct and non-trivial",
 }, matrix, checkCell)
